@@ -155,6 +155,10 @@ def ev_append_ps(cx, recv, args):
     try:
         renorm = And(cx.a('renormalize') > 0, cx.v('simulationstep') % cx.a('renormalize') == 0)
     except ExtractionError:
+        if getattr(cx.ex, 'inline_depth', 0) > 0:
+            # the record is appended inside a helper that main calls: the step counter is not in scope there, so whether this is a
+            # renormalisation step cannot be told -- undecided, not "no renormalisation"
+            raise ExtractionError('main: a record is appended inside a helper function; the step it belongs to is not visible there (the control skeleton has to be adapted)')
         renorm = z3.BoolVal(False)      # initial record, before the loop
     record_check(cx, 'bunch_profile_is_projection_of_stored_grid', Implies(notps, fresh))
     # the same statement away from renormalisation steps (see known_findings.json: region of the open finding)
